@@ -20,7 +20,7 @@ ASSUMPTIONS = ['"re-applying the initial conditions" = setting position and spee
 EXPLANATION = 'exhaustive schedules (split points, units) with a differential oracle between two executions of the real code'
 
 DT = 0.125
-MODELS = ['plain', 'locking', 'overload', 'locking-d0', 'controlled', 'timeload']
+MODELS = ['plain', 'locking', 'overload', 'locking-d0', 'declared-duty-0', 'controlled', 'timeload']
 
 
 def bounds(tier):
@@ -51,6 +51,13 @@ def model_spec(name):
                            init={'theta': [0.0, 'rad'], 'w': [0.5, 'rad/s']})
         spec['load'] = ['const', 0.5 * menu.stall_at_output(spec)]
         duty = [0, 0.6, 1, 1, -1, 1, 0, 1, 1, 1, 1, 1, 1, 1, 1, 1]
+    elif name == 'declared-duty-0':
+        # the user declares duty cycle 0 on the motor before the first run; the control commands 0.8 from instant 0 on
+        spec = menu.assign([('J', 'Wg'), ('W', 'Ww')], motor=menu.MOTOR_CUR, locking=True,
+                           init={'theta': [0.0, 'rad'], 'w': [0.0, 'rad/s']})
+        spec['load'] = ['const', 0.3 * menu.stall_at_output(spec)]
+        spec['declared_pwm'] = 0
+        duty = [0.8, 0.8, 1, 1, 0.5, 1, 1, 1, 1, 1, 1, 1, 1, 1, 1, 1]
     elif name == 'controlled':
         spec = menu.assign([('J', 'S'), ('G', 'S')], motor=menu.MOTOR_CUR, init={'theta': [0.0, 'rad'], 'w': [0.0, 'rad/s']})
         spec['load'] = ['const', 0.2 * menu.stall_at_output(spec)]
@@ -80,6 +87,8 @@ def execute(name, ops, dtv):
     """ops: list of ('run', n, dt_unit, T_unit) | ('reset',) | ('newsolver',).  Returns (observations per execution, error)."""
     spec, duty = model_spec(name)
     m = sim.Model(spec)
+    if 'declared_pwm' in spec:
+        m.elements[0].pwm = spec['declared_pwm']       # part of the declared initial state; reset() must bring it back itself
     ctl = install_rules(m, dtv) if duty == 'rules' else None
     segs = []
     err = None
@@ -188,7 +197,7 @@ def check_reset(acc, name, dtv, ns, newsolver):
     held = ended_held(first)
     pwm0 = first['el'][0]['pwm'][0]
     tag = ('new-solver' if newsolver else 'same-solver') + ('/ended-held' if held else '/ended-moving') + \
-          ('/pwm0-differs-from-initial' if pwm0 != 1 else '/pwm0-initial')
+          ('/pwm0-differs-from-initial' if pwm0 != model_spec(name)[0].get('declared_pwm', 1) else '/pwm0-initial')
     acc.outcomes[('reset', tag, 'equal' if d is None else d[0])] += 1
     if d is not None:
         acc.violation(f'C12/reset/{d[0]}/{tag}', 'after reset and re-init the schedule reproduces the histories exactly', case, d[1])
